@@ -346,6 +346,9 @@ func runC14(c *engine.Ctx) {
 			if !ok || fieldReadOf(s.Chan) != respF || !inLoop(s.Block()) {
 				return
 			}
+			if engine.IsNilConst(s.X) && len(engine.StoresTo([]*ssa.Function{f}, a.peerTotal)) > 0 {
+				return // a grant (answer nil and account the memory): R4's business, not the release path
+			}
 			found = true
 			nonNil := false
 			switch engine.LocalValue(s.X).(type) {
@@ -542,15 +545,16 @@ func c14Comparator(c *engine.Ctx, rule string, a *allocFacts) {
 // be re-sorted (Update/Pop/Remove) and its head re-read (Peek); a loop that keeps granting to the same peer serves
 // that peer's younger requests ahead of other peers' older ones.
 func c14HeadOnly(c *engine.Ctx, rule string) {
-	grant := c.P.Func("allocator", "Allocator", "processNextPendingAllocationForPeer")
-	if grant == nil {
-		c.AnchorMissing(rule, "allocator.Allocator.processNextPendingAllocationForPeer")
+	// a grant: the nil answer sent on a waiting request's channel — in the loop itself or in a helper it calls
+	respF := c.P.Field("allocator", "pendingAllocation", "response")
+	if respF == nil {
+		c.AnchorMissing(rule, "allocator.pendingAllocation.response")
 		return
 	}
-	isGrant := func(in ssa.Instruction) bool {
-		cc, ok := in.(*ssa.Call)
-		return ok && cc.Call.StaticCallee() == grant
-	}
+	isGrant := engine.LiftMay(func(in ssa.Instruction) bool {
+		s, ok := in.(*ssa.Send)
+		return ok && fieldReadOf(s.Chan) == respF && engine.IsNilConst(s.X)
+	})
 	isPeek := func(in ssa.Instruction) bool {
 		cc, ok := in.(*ssa.Call)
 		return ok && cc.Call.IsInvoke() && cc.Call.Method.Name() == "Peek"
@@ -573,6 +577,6 @@ func c14HeadOnly(c *engine.Ctx, rule string) {
 		})
 	}
 	if n == 0 {
-		c.AnchorMissing(rule, "a call of processNextPendingAllocationForPeer")
+		c.AnchorMissing(rule, "a grant (nil answer on a waiting request's channel) in the allocator")
 	}
 }
